@@ -49,7 +49,16 @@ NJ_BAD = rs("t/nj", [["record", "sub"]], [J_BAD])
 NJ_OK = rs("t/nj", [["record", "sub"]], [J_OK])
 U1 = rs("u/v_w", [["string", "s"]], ["'one'"])  # same Python-safe class name as U2, same fields
 U2 = rs("u/v/w", [["string", "s"]], ["'two'"])
-KINDS = {"J_BAD": J_BAD, "J_OK": J_OK, "NJ_BAD": NJ_BAD, "NJ_OK": NJ_OK, "F2_BAD": F2_BAD, "F2_OK": F2_OK, "U1": U1, "U2": U2, "G_AB": G_AB, "G_ALT": G_ALT, "G_AA2": G_AA2, "F_BAD": F_BAD, "F_OK": F_OK, "NF_BAD": NF_BAD, "NF_OK": NF_OK, "A": A, "B": B, "A2": A2, "C": C, "N_A": N_A, "N_X": N_X, "G": G, "G_Y": G_Y, "G_B": G_B, "N_B": N_B}
+# descriptors derived from one that is already in use (extend / clone / string definition / merge), and alias spellings
+D_BASE = rs("t/d", [["string", "a"]], ["'va'"])
+D_EXT = dict(rs("t/d", [["string", "a"], ["varint", "n"]], ["'va'", "1"]), via=["extend", 1])
+D_CLONE = dict(rs("t/dclone", [["string", "a"]], ["'vc'"]), via=["clone", "t/d"])
+D_STR = dict(rs("t/dstr", [["string", "a"], ["varint", "n"]], ["'vs'", "2"]), via=["strdef"])
+D_UNP = dict(rs("t/d", [["string", "a"], ["varint", "n"]], ["'vu'", "3"]), via=["unpack"])
+D_MERGE = dict(rs("t/d", [["string", "a"], ["boolean", "c"]], ["'vm'", "True"]), via=["merge", 1])
+AL1 = rs("t/al", [["string", "s"], ["net.ipaddress", "ip"]], ["'x'", "'1.2.3.4'"])
+AL2 = rs("t/al", [["wstring", "s"], ["net.IPAddress", "ip"]], ["'x'", "'1.2.3.4'"])
+KINDS = {"D_BASE": D_BASE, "D_EXT": D_EXT, "D_CLONE": D_CLONE, "D_STR": D_STR, "D_UNP": D_UNP, "D_MERGE": D_MERGE, "AL1": AL1, "AL2": AL2, "J_BAD": J_BAD, "J_OK": J_OK, "NJ_BAD": NJ_BAD, "NJ_OK": NJ_OK, "F2_BAD": F2_BAD, "F2_OK": F2_OK, "U1": U1, "U2": U2, "G_AB": G_AB, "G_ALT": G_ALT, "G_AA2": G_AA2, "F_BAD": F_BAD, "F_OK": F_OK, "NF_BAD": NF_BAD, "NF_OK": NF_OK, "A": A, "B": B, "A2": A2, "C": C, "N_A": N_A, "N_X": N_X, "G": G, "G_Y": G_Y, "G_B": G_B, "N_B": N_B}
 
 CONF = {}  # set in main(): {"packer": "binary"|"json", "m": int, "kinds": [...]}
 
@@ -63,6 +72,7 @@ def kinds_for(packer, names):
 
 CORE = ["A", "B", "A2", "C", "N_A", "N_X", "G", "G_Y", "G_B", "N_B", "G_AB"]
 SPECIAL = ["A", "C", "G", "G_ALT", "G_AA2", "F_BAD", "F_OK", "NF_BAD", "NF_OK", "F2_BAD", "F2_OK", "U1", "U2"]
+DERIVED = ["A", "G", "D_BASE", "D_EXT", "D_CLONE", "D_STR", "D_UNP", "D_MERGE", "AL1", "AL2"]
 JSPECIAL = ["A", "C", "J_BAD", "J_OK", "NJ_BAD", "NJ_OK", "F_OK", "U1", "U2", "N_X"]
 
 
@@ -218,13 +228,15 @@ def step_binary(hist, conf):
             before = [b.getvalue() for b in bufs]
         r = recs.build_record(KINDS[k])
         try:
-            writers[w].write(r)
+            with warnings.catch_warnings():
+                warnings.simplefilter("error" if conf.get("werror") else "ignore")
+                writers[w].write(r)
             written[w].append(r)
             last_failed = False
-        except (UnicodeError, ValueError, TypeError, OverflowError):
+        except (UnicodeError, ValueError, TypeError, OverflowError, Warning):
             last_failed = True  # a refused record: nothing of it may count as written; later records must still decode
     viol = []
-    case = {"kind": "hist", "packer": "binary", "m": m, "history": hist}
+    case = {"kind": "hist", "packer": "binary", "m": m, "history": hist, "werror": bool(conf.get("werror"))}
     out = "root"
     canon = []
     datas = [b.getvalue() for b in bufs]
@@ -316,13 +328,15 @@ def step_json(hist, conf):
             before = [b.getvalue() for b in bufs]
         r = recs.build_record(KINDS[k])
         try:
-            writers[w].write(r)
+            with warnings.catch_warnings():
+                warnings.simplefilter("error" if conf.get("werror") else "ignore")
+                writers[w].write(r)
             written[w].append(r)
             last_failed = False
-        except (UnicodeError, ValueError, TypeError):
+        except (UnicodeError, ValueError, TypeError, Warning):
             last_failed = True
     viol = []
-    case = {"kind": "hist", "packer": "json", "m": m, "history": hist}
+    case = {"kind": "hist", "packer": "json", "m": m, "history": hist, "werror": bool(conf.get("werror"))}
     out = "root"
     datas = [b.getvalue() for b in bufs]
     canon = []
@@ -405,7 +419,7 @@ def run_case(case):
     if case.get("kind") == "tla-edge":
         ok, got = replay_edge((case["path"], None, case["writers"]))
         return {"ev": 1, "h": jhash(case), "viol": [("C03:tla:implementation-diverges-from-model:%s" % case["path"][-1][1], case, {"implementation_frames": got})]}
-    CONF.update({"packer": case["packer"], "m": case["m"], "kinds": list(KINDS)})
+    CONF.update({"packer": case["packer"], "m": case["m"], "kinds": list(KINDS), "werror": bool(case.get("werror"))})
     viol = []
     hist = case["history"]
     for i in range(1, len(hist) + 1):
@@ -549,6 +563,10 @@ def main(tier, seed, workers=None):
     plans = [
         ("binary", 1, CORE, 12),
         ("binary", 1, SPECIAL, 12),
+        ("binary", 1, DERIVED, 12),
+        ("binary+werror", 1, ["A", "B", "A2", "C", "N_A", "G", "G_B", "D_EXT", "AL2"], 12),
+        ("json", 1, kinds_for("json", DERIVED), 12),
+        ("json+werror", 1, ["A", "B", "A2", "C", "N_A", "D_EXT", "AL2"], 12),
         ("binary", 2, ["A", "A2", "B", "N_X", "G_Y"] if not thorough else ["A", "A2", "B", "C", "N_A", "N_X", "G", "G_Y"], 14),
         ("json", 1, kinds_for("json", CORE), 12),
         ("json", 1, kinds_for("json", SPECIAL), 12),
@@ -562,7 +580,7 @@ def main(tier, seed, workers=None):
     machines = []
     for packer, m, kinds, cap in plans:
         CONF.clear()
-        CONF.update({"packer": packer, "m": m, "kinds": kinds})
+        CONF.update({"packer": packer.split("+")[0], "m": m, "kinds": kinds, "werror": packer.endswith("+werror")})
         s, t, fix, depth = bfs(run, step, cap, workers, label="%s m=%d: " % (packer, m), full_depth=3 if m == 1 else 2)
         machines.append({"packer": packer, "writers": m, "kinds": kinds, "states": s, "transitions": t, "fixpoint": fix, "depth": depth})
         tot_s += s
